@@ -16,7 +16,7 @@ def run(tier):
         conds.append(Cond("h_parse_str.py", "complete", to, twin="reach", path_timeout=to / 2, env=env))
     # a star directly followed by its own body inside a counted repetition (known finding C05-starrep on 'aac')
     conds.append(Cond("h_parse_str.py", "complete", to, path_timeout=to / 2, env={"H_SPEC": "starrep", "H_LEN": "3" if tier == "quick" else "5"}))
-    for spec, alpha, ql, tl in RX_SPECS:
+    for spec, alpha, ql, tl in RX_SPECS + [("rxnull", "ab", 3, 4)]:
         conds.append(Cond("h_parse_str.py", "complete_fa", to, path_timeout=to / 2,
                           env={"H_SPEC": spec, "H_LEN": str(ql if tier == "quick" else tl), "H_ALPHA": alpha}))
     # generator direction: every tree Grammar.fuzz can produce re-parses with an identical serialisation
